@@ -1348,6 +1348,9 @@ class SubElementTextListProperty(_ElementListProperty):
         texts = [_node.text or '' for _node in nodes]
         if self._value_class is str:
             return texts
+        if self._value_class is int:
+            # xsd:integer (msg:NumberOfLines): int() alone also reads '1_0', non-ASCII digits and text padded with non-XML white space
+            return [IntegerConverter.to_py(text) for text in texts]
         return [self._value_class(text.strip()) for text in texts]
 
     def update_xml_value(self, instance: Any, node: xml_utils.LxmlElement):
